@@ -1583,6 +1583,11 @@ def rule_dispatch_siblings(chk):
     disp = []  # (rel, fn, kernels, settings reads)
     for rel in SIBLING_FILES:
         mod = chk.tree.py(rel)
+        top = {f.name: f for f in mod.body if isinstance(f, ast.FunctionDef)}
+
+        def calls(f):
+            return {pf.call_name(n) for n in pf.walk_no_nested(f) if isinstance(n, ast.Call) and pf.call_name(n) in top}
+
         for fn in ast.walk(mod):
             if not isinstance(fn, ast.FunctionDef):
                 continue
@@ -1590,8 +1595,23 @@ def rule_dispatch_siblings(chk):
             for n in pf.walk_no_nested(fn):
                 if isinstance(n, ast.Assign) and _lib_func(n.value):
                     kernels.add(_lib_func(n.value))
-            if len(kernels) >= 2:
-                disp.append((rel, fn, kernels, _settings_reads(fn)))
+            if len(kernels) < 2:
+                continue
+            # the unit of dispatch is the public function: a private kernel selector belongs to the function(s)
+            # calling it, and the private helpers a public function calls (plan unpacking ...) belong to it too
+            owners = [fn]
+            if fn.name.startswith("_") and fn.name in top:
+                ups = [f for f in top.values() if fn.name in calls(f)]
+                if ups:
+                    owners = ups
+            for owner in owners:
+                reads = dict(_settings_reads(owner))
+                members = {owner.name, fn.name} | {c for c in calls(owner) if c.startswith("_")}
+                for c in sorted(members):
+                    if c in top and top[c] is not owner:
+                        for a, node in _settings_reads(top[c]).items():
+                            reads.setdefault(a, node)
+                disp.append((rel, owner, kernels, reads))
     if len({d[0] for d in disp}) < 2:
         raise core.AnalysisError("kernel dispatchers not found in both %s" % SIBLING_FILES)
     n = 0
